@@ -30,7 +30,7 @@ Ghost vocabulary
   Relocate::rel_addr(offset, value) / rel_off(offset, value)   uninterpreted: the relocation as a mathematical function
         (assumption on every `Relocate` implementation: it is a function of (self, offset, value))
   RelocateReader::inner_v() / section_v() / rel()              views of the private fields;  rv() == inner_v()
-  RelocateReader::wf()         inside(section_v(), inner_v())  -- established by `new`, kept by every method (see finding)
+  RelocateReader::wf()         inside(section_v(), inner_v())  -- established by `new`, kept by every method
   identity_reloc(t) / same_reloc(a, b)
 
 Assumed (TRUSTED)
@@ -50,16 +50,18 @@ Not decided here
   compared with the bare reader by Kani K-RELOC.  `fmt::Debug` (replaced by derive, R-STUB).  Whether parsers route every
   relocatable field through the three reads is the business of the parser batches (C18 trace clauses), not of this one.
 
-FINDING (genuine, reproduced: native/src/bin/f_relocate_1.rs; Kani twins k_eslice_empty_position, k_reloc_empty_then_read)
-  clause [C10:reloc-wf-kept][C01:reloc-wf-kept] on `empty` FAILS on the pinned tree: the Reader contract of `empty`
-  cannot promise a position (EndianSlice::empty is `self.slice = &[]`), so after `empty()` the three relocating reads call
-  `offset_from` on a reader that is no longer inside `section`: debug builds panic in EndianSlice::offset_from
-  (`debug_assert!(base_ptr <= ptr)`), where the bare reader returns UnexpectedEof.
-  Minimal fix: EndianSlice::empty `self.slice = &self.slice[..0];` + core.py `empty` ensures `trunc(O, F, 0)`;
-  or locally RelocateReader::empty `let n = self.reader.len(); let _ = self.reader.skip(n);`
-  (with the local fix applied to a scratch copy the batch exits 0: 53 fns, 168 clauses, 0 errors).
+FINDING F-relocate-1 (genuine, reproduced, FIXED in /repo ffd31c4; native/src/bin/f_relocate_1.rs; Kani regression
+  harnesses k_eslice_empty_position, k_reloc_empty_then_read)
+  On the tree before ffd31c4 clause [C10:reloc-wf-kept][C01:reloc-wf-kept] on `empty` failed: EndianSlice::empty was
+  `self.slice = &[]`, so the Reader contract of `empty` could not promise a position, and after `empty()` the three
+  relocating reads called `offset_from` on a reader no longer inside `section`: debug builds panicked in
+  EndianSlice::offset_from (`debug_assert!(base_ptr <= ptr)`) where the bare reader returns UnexpectedEof.
+  Fix applied: EndianSlice::empty `self.slice = &self.slice[..0];` + core.py `empty` ensures `trunc(O, F, 0)`; the clause
+  now discharges (batch exits 0: 53 fns, 169 clauses).  The clause stays: a reader whose `empty` drops the position, or a
+  RelocateReader::empty that leaves the section, fails it again.
 
-Self-attack (scratch copy of /repo, GIMLI_REPO=...; every mutant exits 1 with the tagged clause named, plus the finding)
+Self-attack (scratch copy of /repo, GIMLI_REPO=...; every mutant exits 1 with the tagged clause named; run before the fix, so each
+  run also showed the then-open finding)
   split also truncates `section`                 -> [C10/C18:reloc-split-keeps-section] (+ Reader::split [C01:eof-exact])
   split: `other.section = other.reader.clone()`  -> [C10/C18:reloc-split-keeps-section]
   new override `read_u64` that relocates         -> Reader::read_u64 [C09:fixed-value], [C01:eof-exact], [C01:err-no-consume],
